@@ -98,6 +98,11 @@ pub fn domain(dc: &Decaf, quick: bool) -> Vec<BigUint> {
     for pat in crate::fields::s_limb(q, 32, &[0, 0xFFFF_FFFF]) {
         v.push(pat);
     }
+    // r0 solved for so that the inner inverse-square-root argument has a structured 2-primary
+    // discrete log (every table digit value, roots of unity, all-ones ...)
+    for (r0, _) in crate::sqrtclass::elligator_r0s(dc, quick) {
+        v.push(r0);
+    }
     // unstructured members: a fixed pseudo-random family
     v.extend(crate::fields::prand(0x07, if quick { 1 << 12 } else { 1 << 16 }, q));
     crate::fields::dedup(v)
